@@ -193,6 +193,13 @@ pub fn run_stark(ctx: &Ctx) {
     for m in looks {
         subjects.push((m, base_cfg(2, starkm::Arity::Constant(1, 1)), 4));
     }
+    // no grinding
+    if let Some(m) = plain.first() {
+        let mut c = base_cfg(2, starkm::Arity::Ones(1));
+        c.pow_bits = 0;
+        c.queries = 10;
+        subjects.push((m.clone(), c, 4));
+    }
     let _ = pick;
     for (m, cfg, k) in &subjects {
         // rate must admit the constraint degree
